@@ -56,6 +56,7 @@ type Log struct {
 	evs   []Ev
 	holds map[int]*Hold
 	held  int32 // number of holds that were actually entered
+	once  map[int]bool // Pn1: ids whose first invocation in this call has happened
 }
 
 func NewLog() *Log { return &Log{holds: map[int]*Hold{}} }
@@ -166,6 +167,26 @@ func (o *Obs) Pn(id int64) int64 {
 	panic("injected function panics on purpose")
 }
 
+// Pn1 panics (after logging like Fl) the FIRST time it is called for id within one call and returns
+// quietly afterwards: of two occurrences of a rule in one DAG layer one fails, the other succeeds - and,
+// because the failing one holds first, usually finishes after it.
+func (o *Obs) Pn1(id int64) int64 {
+	l := o.Current()
+	l.mu.Lock()
+	if l.once == nil {
+		l.once = map[int]bool{}
+	}
+	first := !l.once[int(id)]
+	l.once[int(id)] = true
+	l.mu.Unlock()
+	if first {
+		l.add('f', int(id))
+		panic("injected function panics on its first invocation only")
+	}
+	time.Sleep(300 * time.Microsecond)
+	return id
+}
+
 var bigMessage = strings.Repeat("a large diagnostic payload ", 150000) // ~4 MB
 
 // Pnb logs like Fl and panics with a multi-megabyte message: turning it into the rule's
@@ -186,6 +207,7 @@ func (o *Obs) Apis() map[string]interface{} {
 		"fl":  o.Fl,
 		"pn":  o.Pn,
 		"pnb": o.Pnb,
+		"pn1": o.Pn1,
 		"lsv": LocalSrc,
 	}
 }
